@@ -841,7 +841,7 @@ async fn one_history(seed: u64, acc: &mut Acc, nevents: usize) {
 }
 
 pub fn run(args: Args) {
-    let histories: u64 = args.tier.pick(160, 3200);
+    let histories: u64 = args.tier.pick(160, 2400);
     let nevents: usize = 36;
     let mut run = Run::new(
         args.clone(),
